@@ -140,7 +140,16 @@ pub fn prop(id: &str) -> (ScreenProp, u64, u64) {
             (
                 ScreenProp {
                     id: "C19",
-                    opts: vec![("single-small-terminal", single, 4), ("multi-small-terminal", multi, 4), ("multi-many-bars", tall, 3), ("single-wide-chars", wide, 1)],
+                    opts: vec![("single-small-terminal", single, 4), ("multi-small-terminal", multi.clone(), 4), ("multi-many-bars", tall, 3), ("single-wide-chars", wide, 1), ("multi-narrow-exhausted-limiter", {
+                        // wrapping rows whose repaint the limiter may decline: the accounting must follow what is
+                        // really on the screen
+                        let mut l = multi;
+                        l.hz = vec![Some(1), Some(1), Some(3)];
+                        l.exhaust = true;
+                        l.finish_weight = 2;
+                        l.heights = None;
+                        l
+                    }, 2)],
                     judge: any_rule(GEOMETRY_RULES),
                     check_cursor: false,
                 },
@@ -197,6 +206,8 @@ pub const GEOMETRY_RULES: &[&str] = &[
     "log-missing", "row-duplicated", "residue-row", "frame-row-missing", "blank-row", "blank-row-missing", "row-order",
     "bar-row-in-scrollback", "panic", "member-duplicated", "member-stale", "member-content", "member-missing",
     "blank-row-in-frame", "log-duplicated", "log-below-bar", "cleared-bar-visible", "removed-bar-visible",
+    // (a final frame that is stale or missing on a narrow or short terminal is how mis-counted rows surface first)
+    "final-frame-stale", "final-frame-missing",
 ];
 
 pub const LOG_RULES: &[&str] = &["log-missing", "log-duplicated", "log-reordered", "log-below-bar", "panic"];
